@@ -25,6 +25,8 @@ pub enum Kind {
     SliderZeroRep,
     /// perfect-circle curve through three points, 100 px, 1 span
     SliderPerfect,
+    /// straight slider of the given length in px, 1 span
+    SliderLen(u16),
     /// spinner of the given length in ms
     Spinner(u32),
     /// hold note (type 128) of the given length in ms
@@ -202,6 +204,7 @@ impl MapSpec {
                 Kind::SliderTiny => slider_end(1.0, 10.0),
                 Kind::SliderZeroRep => t,
                 Kind::SliderPerfect => slider_end(1.0, 100.0),
+                Kind::SliderLen(px) => slider_end(1.0, f64::from(px)),
                 Kind::Spinner(len) | Kind::Hold(len) => t + i64::from(len),
             };
             match o.pos {
@@ -259,6 +262,9 @@ impl MapSpec {
                 }
                 Kind::SliderZeroRep => {
                     let _ = writeln!(s, "{x},{y},{t},2,{hs},L|{x}:{y},4,0");
+                }
+                Kind::SliderLen(px) => {
+                    let _ = writeln!(s, "{x},{y},{t},2,{hs},L|{}:{y},1,{px}", x + i32::from(px));
                 }
                 Kind::SliderPerfect => {
                     let _ = writeln!(s, "{x},{y},{t},2,{hs},P|{}:{}|{}:{y},1,100", x + 50, y + 30, x + 95);
